@@ -44,7 +44,7 @@ def ReleaseClaim : List String := ["storage.Delete"]
 def RepoCreatePortMapping : List String := ["r.Create", "r.AddMappingToList", "r.Delete"]
 def Revoke : List String := []
 def RevokeConnectionCode : List String := ["s.claimCode", "release", "connCodeRepo.GetByCode", "connCode.Revoke", "connCodeRepo.Update"]
-def SvcCreatePortMapping : List String := ["idManager.GeneratePortMappingID", "mappingRepo.CreatePortMapping", "HandleErrorWithIDReleaseString", "mappingRepo.AddMappingToClient", "mappingRepo.AddMappingToClient"]
+def SvcCreatePortMapping : List String := ["idManager.GeneratePortMappingID", "HandleErrorWithIDReleaseString", "mappingRepo.CreatePortMapping", "HandleErrorWithIDReleaseString", "mappingRepo.AddMappingToClient", "mappingRepo.AddMappingToClient"]
 def TryClaim : List String := ["casStore.SetNX"]
 def Update : List String := ["code.TimeRemaining", "r.Delete", "storage.Set", "storage.Set"]
 def claimCode : List String := ["connCodeRepo.TryClaim", "connCodeRepo.ReleaseClaim"]
